@@ -1,6 +1,6 @@
 \* intended behaviour (all switches TRUE): TLC must pass
-\* family: every invocation within 2 changes of the plain one, plus the share C26_PART/C26_NPARTS of those with 3 changes
-CONSTANTS MaxDev = 2  SampleDev = 3  MaxPaths = 2  MaxModels = 2  MaxModelsRich = 2  MaxOpts = 2
+\* quick family: every invocation within 2 changes of a base call (no 3-change sample: SampleDev = 9 disables it; thorough has it)
+CONSTANTS MaxDev = 2  SampleDev = 9  MaxPaths = 2  MaxModels = 2  MaxModelsRich = 2  MaxOpts = 2
           CliCountsTranslateFailures = TRUE  CliCatchesTranslateErrors = TRUE  CliCountsMissingModelFile = TRUE
           Emit = FALSE  NParts <- NPartsEnv  Part <- PartEnv
 INIT Init
